@@ -1024,7 +1024,7 @@ class TLSRecordLayer(object):
             for result in self._recordLayer.sendRecord(msg):
                 if result in (0, 1):
                     yield result
-        except socket.error:
+        except socket.error as sock_err:
             # The socket was unexpectedly closed.  The tricky part
             # is that there may be an alert sent by the other party
             # sitting in the read buffer.  So, if we get here after
@@ -1053,10 +1053,11 @@ class TLSRecordLayer(object):
                 if recordHeader.type == ContentType.alert:
                     alert = Alert().parse(p)
                     raise TLSRemoteAlert(alert)
-            else:
                 # If we got some other message who know what
                 # the remote side is doing, just go ahead and
                 # raise the socket.error
+                raise sock_err
+            else:
                 raise
 
     def _getMsg(self, expectedType, secondaryType=None, constructorType=None):
